@@ -98,6 +98,9 @@ class C11(Prop):
         "NV.C11.callAfter_ref",
         "NV.C11.finish_ref",
         "NV.C11.tick_eq_ref",
+        "NV.C11.accepted_ctx_clean",
+        "NV.C11.judge_ok_implies_ctx_clean",
+        "NV.C11.context_clean_every_beat",
         "NV.C11.call_context_clean",
         "NV.C11.call_context_accepted",
         "NV.C11.caught_error_keeps_heart_beat",
